@@ -412,6 +412,11 @@ def generate(repo, cfg_inc):
     one(r"aws_array_list_push_back\s*\(\s*&parser->callback_stack\s*,\s*&stack_data\s*\)\s*;", trav, "push of the callback stack")
     one(r"aws_array_list_pop_back\s*\(\s*&parser->callback_stack\s*\)\s*;\s*return\s+parser->error\s*;", trav, "pop of the callback stack")
     m_dt = one(r"if\s*\(([^{}]*?)\)\s*\{\s*AWS_LOGF_ERROR\s*\([^;]*exceeds max depth", trav, "depth test")
+    # the refusal must be recorded in parser->error (the `error:` label is the only place that sets it): a callback that
+    # ignores the failing aws_xml_node_traverse must not be able to turn a too deep document into a successful parse
+    one(r"exceeds max depth\.\"\s*\)\s*;\s*aws_raise_error\s*\(\s*AWS_ERROR_INVALID_XML\s*\)\s*;\s*goto\s+error\s*;\s*\}", trav,
+        "the depth refusal goes through the error label")
+    one(r"\berror\s*:\s*parser->error\s*=\s*AWS_OP_ERR\s*;\s*return\s+parser->error\s*;", trav, "the error label records the failure in parser->error")
     one(r"size_t\s+doc_depth\s*=\s*aws_array_list_length\s*\(\s*&parser->callback_stack\s*\)\s*;", trav, "doc_depth")
     dt_expr = m_dt.group(1).replace("parser->max_depth", "max_depth")
     only_identifiers(dt_expr, ["doc_depth", "max_depth"], "depth test")
@@ -489,6 +494,8 @@ def generate(repo, cfg_inc):
     d("parentCloseMarker", c_char(m_pc.group(1)), "`*(next_location + 1) == …` -> parent closed", "UInt8")
     d("callbackStackDynamic", "true", f"`aws_array_list_init_dynamic(&parser.callback_stack, allocator, {norm(m_cs.group(1))}, …)`: the stack whose "
       "length the depth test reads grows with every push (a push cannot fail short of allocation failure, which aborts)", "Bool")
+    d("depthRefusalRecorded", "true", "the depth-test block of aws_xml_node_traverse ends in `aws_raise_error(AWS_ERROR_INVALID_XML); goto error;` and "
+      "`error:` is `parser->error = AWS_OP_ERR; return parser->error;`", "Bool")
     d("preambleMarkers", lean_bytes(markers), "`*(parser.doc.ptr + 1) == …` alternatives of the preamble loop", "List UInt8")
     a("")
     a(f"/-- `if ({norm(m_dt.group(1))})` of aws_xml_node_traverse (-> \"XML document exceeds max depth.\"), reads lifted to parameters -/")
